@@ -11,7 +11,9 @@ RULE = ('fixtures: 1-5 model parameters (decorated in both forms of the decorato
         'calls in / after the constructor; the table the optimizer reads is judged against the declarations first), a real '
         'TransmissionModel assembled from the repo\'s own components (isothermal / 1-3 node NPoint / Guillot / Rodgers; '
         'Constant / TwoLayer / TwoPoint / Power gas profiles; clouds / flat Mie / Lee Mie) with a random third of all its '
-        'parameters fitted and written through, 0-3 observation parameters, 0-3 derived parameters, log and linear modes, default_fit on/'
+        'parameters fitted and written through (plus a quota of such models whose components are constructed with whole numbers '
+        'as Python ints, scalars and node-list entries alike, ~70% of the parameters fitted and written non-integer values), '
+        '0-3 observation parameters, 0-3 derived parameters, log and linear modes, default_fit on/'
         'off, bounds in either order incl. non-positive ones on log parameters; sequences of 3-12 (quick) / 3-60 (thorough) '
         'operations drawn from the 10 operations with unknown names, bad modes, wrong-length vectors, user priors of all four '
         'classes in both spaces, write-back of reported values. distinct non-trivial = distinct operation-kind sequences '
@@ -319,16 +321,19 @@ def build_real_model(variant):
         variant = dict(t='isothermal', gases=[['H2O', 'constant'], ['CH4', 'constant']], contribs=[], fill=['H2', 'He'],
                        legacy=True)
     t = variant['t']
+    # variant['numeric'] == 'ints': every whole-valued number is handed to the component constructors as a Python int
+    # (scalars and the entries of node lists alike), as a script author types them; the default is floats throughout
+    W = (lambda x: int(x)) if variant.get('numeric') == 'ints' else (lambda x: float(x))
     if t == 'isothermal':
-        tp = Isothermal(T=1200.0)
+        tp = Isothermal(T=W(1200))
     elif t.startswith('npoint'):
         k = int(t[-1])
-        tp = NPoint(T_surface=1500.0, T_top=300.0, P_surface=1e6, P_top=1e-2,
-                    temperature_points=[1100.0, 900.0, 700.0][:k], pressure_points=[1e4, 1e3, 1e2][:k])
+        tp = NPoint(T_surface=W(1500), T_top=W(300), P_surface=W(10 ** 6), P_top=1e-2,
+                    temperature_points=[W(1100), W(900), W(700)][:k], pressure_points=[W(10 ** 4), W(10 ** 3), W(10 ** 2)][:k])
     elif t == 'guillot':
-        tp = Guillot2010(T_irr=1500.0, kappa_irr=0.01, kappa_v1=0.005, kappa_v2=0.004, alpha=0.5, T_int=100.0)
+        tp = Guillot2010(T_irr=W(1500), kappa_irr=0.01, kappa_v1=0.005, kappa_v2=0.004, alpha=0.5, T_int=W(100))
     else:
-        tp = Rodgers2000(temperature_layers=[1000.0, 900.0, 800.0], correlation_length=5.0)    # one per layer (3 layers)
+        tp = Rodgers2000(temperature_layers=[W(1000), W(900), W(800)], correlation_length=W(5))    # one per layer (3 layers)
     fill = list(variant.get('fill') or ['H2', 'He'])
     chem = TaurexChemistry(fill_gases=fill, ratio=0.17 if len(fill) == 2 else [0.17, 0.02])
     for j, (mol, kind) in enumerate(variant['gases']):
@@ -337,18 +342,18 @@ def build_real_model(variant):
         elif kind == 'constant':
             chem.addGas(ConstantGas(mol, mix_ratio=1e-4 / (j + 1)))
         elif kind == 'twolayer':
-            chem.addGas(TwoLayerGas(mol, mix_ratio_surface=1e-4, mix_ratio_top=1e-6 / (j + 1), mix_ratio_P=1e3))
+            chem.addGas(TwoLayerGas(mol, mix_ratio_surface=1e-4, mix_ratio_top=1e-6 / (j + 1), mix_ratio_P=W(1000)))
         elif kind == 'twopoint':
             chem.addGas(TwoPointGas(mol, mix_ratio_surface=2e-4, mix_ratio_top=1e-7 / (j + 1)))
         else:
-            chem.addGas(PowerGas(mol, profile_type='TiO', mix_ratio_surface=1e-7, alpha=1.5, beta=2e4, gamma=12.0))
+            chem.addGas(PowerGas(mol, profile_type='TiO', mix_ratio_surface=1e-7, alpha=1.5, beta=W(20000), gamma=12.0))   # (an int gamma makes build() raise in np.power(10, -gamma): not this property)
     tm = TransmissionModel(planet=Planet(), star=BlackbodyStar(), temperature_profile=tp, chemistry=chem,
                            pressure_profile=SimplePressureProfile(nlayers=3), nlayers=3)
     for c in variant['contribs']:
-        tm.add_contribution(dict(clouds=lambda: SimpleCloudsContribution(clouds_pressure=1e3),
-                                 flatmie=lambda: FlatMieContribution(flat_mix_ratio=1e-10, flat_bottomP=1e4, flat_topP=1e1),
-                                 leemie=lambda: LeeMieContribution(lee_mie_radius=0.01, lee_mie_q=40.0, lee_mie_mix_ratio=1e-10,
-                                                                   lee_mie_bottomP=1e4, lee_mie_topP=1e1))[c]())
+        tm.add_contribution(dict(clouds=lambda: SimpleCloudsContribution(clouds_pressure=W(1000)),
+                                 flatmie=lambda: FlatMieContribution(flat_mix_ratio=1e-10, flat_bottomP=W(10000), flat_topP=W(10)),
+                                 leemie=lambda: LeeMieContribution(lee_mie_radius=0.01, lee_mie_q=W(40), lee_mie_mix_ratio=1e-10,
+                                                                   lee_mie_bottomP=W(10000), lee_mie_topP=W(10)))[c]())
     tm.build()
     return tm
 
@@ -951,6 +956,8 @@ def run_sequence(ctx, case, gen=None):
     if isinstance(cfg.get('real'), dict):
         v = cfg['real']
         ctx.bucket('real:temperature:' + v['t'])
+        if v.get('numeric'):
+            ctx.bucket('real:constructed-with:%s:%s' % (v['numeric'], v['t']))
         for mol, kind in v['gases']:
             ctx.bucket('real:gas:' + kind)
         for c in v['contribs']:
@@ -1435,15 +1442,26 @@ def run(ctx):
             cfg = dict(cfg, model=mt, obs=ot, dmodel=derived_view(m), dobs=derived_view(o))
         lines, dlines = gen_section(rng, cfg)
         run_section(ctx, dict(cfg=cfg, fitting=lines, derive=dlines))
+    # the repo's own components constructed the way a script author types the numbers: whole values as Python ints (scalars
+    # and the entries of node lists).  The property is over ALL values; what a parameter is constructed with must not decide
+    # whether a later write through its fitting parameter is stored as given.  Most parameters fitted, compile + update_model
+    # first, so every getter / setter pair is written a non-integer value and read back.
+    for _ in range(ctx.n(48, 480)):
+        variant = dict(gen_real_variant(rng), numeric='ints')
+        # (pinned tree: Rodgers2000 kept np.array(temperature_layers) — integer layers gave an integer array and every write
+        # through T_<i> was truncated, T_1 <- 1234.56 read back 1234; found by this stream, repaired in /repo, DESIGN §6)
+        cfg = dict(real=variant, model=None, obs=[], dmodel=None, dobs=[], ndyn=0, composite=False)
+        cfg = randomise_real(rng, cfg, p_fit=0.7)
+        run_sequence(ctx, dict(cfg=cfg), gen=dict(rng=rng, n=int(rng.integers(4, 9)), force=['compile', 'update_model']))
     malformed(ctx)
 
 
-def randomise_real(rng, cfg):
+def randomise_real(rng, cfg, p_fit=0.3):
     m, o = make_pair(cfg)
     mt, ot = settings_of(m, o)
     rows = []
     for name, mode, fit, bounds, value in mt:
-        rows.append((name, mode, bool(fit) or bool(rng.random() < 0.3), (float(bounds[0]), float(bounds[1])), float(value)))
+        rows.append((name, mode, bool(fit) or bool(rng.random() < p_fit), (float(bounds[0]), float(bounds[1])), float(value)))
     return dict(cfg, model=rows, obs=ot, dmodel=derived_view(m), dobs=derived_view(o))
 
 
